@@ -301,7 +301,8 @@ func (r *AvPacket2RtmpRemuxer) FeedAvPacket(pkt base.AvPacket) {
 			}
 
 			length := len(pkt.Payload) - 5 // -7+2
-			if length < 7 {
+			// 注意，adts头7字节，后面至少要有1字节的音频数据，也即length至少为3
+			if length < 3 {
 				return
 			}
 			payload := make([]byte, length)
